@@ -7,7 +7,7 @@ pid, m = sys.argv[1], sys.argv[2]
 wave = os.environ.get("WAVE", "")          # WAVE=2 -> worktree /tmp/wt2-<ID>, id <ID>-w2<m>
 wt = f"/tmp/wt{wave}-{pid}"; src = f"{wt}/seeded_out/{m}"; dst = f"/verif/seeded/{pid}-{('w'+wave) if wave else ''}{m}"
 prop = pid
-if wave in ("3", "4", "5"):
+if wave in ("3", "4", "5", "6"):
     # round 3 is organised by source area (A..F); the property comes from argv[3] or the first Cxx named in notes.md
     import re
     dst = f"/verif/seeded/W{wave}{pid}-{m}"
@@ -18,7 +18,7 @@ env = dict(os.environ, CARGO_NET_OFFLINE="true")
 def sh(c):
     r = subprocess.run(c, cwd=wt, shell=True, capture_output=True, text=True, env=env); return r.returncode, r.stdout + r.stderr
 notes = open(f"{src}/notes.md").read() if os.path.exists(f"{src}/notes.md") else ""
-f32 = "--features f32" if ("f32" in notes and pid == "C19") else ""
+f32 = "--features f32" if ("f32" in notes and (pid == "C19" or prop == "C19")) else ""
 sh("git checkout -- . ; rm -f tests/demo.rs")
 rc, out = sh(f"git apply {src}/patch.diff")
 if rc: print("patch does not apply", out); sys.exit(1)
